@@ -377,7 +377,15 @@ class SWorld:
         inf = math.inf
 
         async def newscope(p):
-            anyio.CancelScope(deadline=(inf if b < 0 else float(b)), shield=bool(d))
+            # the public constructors are glue over the same scope: rotate through them (deterministic in the index)
+            k = len(w.scopes) % 3
+            now = w.loop.time()
+            if k == 0:
+                anyio.CancelScope(deadline=(inf if b < 0 else float(b)), shield=bool(d))
+            elif k == 1:
+                anyio.move_on_at(None if b < 0 else float(b), shield=bool(d))
+            else:
+                anyio.move_on_after(None if b < 0 else float(b) - now, shield=bool(d))
             w.fresh.add(len(w.scopes))
             w.public_scopes.append(len(w.scopes))
             return len(w.scopes)
@@ -399,7 +407,10 @@ class SWorld:
             return bool(r)
 
         async def failat(p):
-            cm = anyio.fail_at(None if b < 0 else float(b), shield=bool(d))
+            if len(w.scopes) % 2 == 0:
+                cm = anyio.fail_at(None if b < 0 else float(b), shield=bool(d))
+            else:
+                cm = anyio.fail_after(None if b < 0 else float(b) - w.loop.time(), shield=bool(d))
             cm.__enter__()
             p.failat_cms[len(w.scopes)] = cm
             w.public_scopes.append(len(w.scopes))
@@ -562,7 +573,13 @@ class SWorld:
         elif c == NATIVECANCEL:
             p = self.puppets[a]
             task = p.task or getattr(p, "pre_task", None)
-            task.cancel()
+            # asyncio accepts any object as the cancel message; rotate through the kinds foreign code uses
+            # (deterministic in the op index, so a replay issues the same message)
+            kind = (len(self.ops) // 4) % 5
+            if kind == 0:
+                task.cancel()
+            else:
+                task.cancel({1: None, 2: "deadline exceeded", 3: 7, 4: ("reason", 1)}[kind])
             out = ("none", None)
         elif c == EXTCANCEL:
             self.scopes[a - 1].cancel()
